@@ -91,6 +91,8 @@ class Ctx:
             self.notes.append("local aliases of attribute chains read as the chain: " + ", ".join(self.inlined_aliases))
         if self.renamed_params:
             self.notes.append("parameters of private helpers read under the name every caller passes: " + ", ".join(self.renamed_params))
+        if self.prog.relocated:
+            self.notes.append("anchor classes found in another module than expected (indexed under their canonical name): " + ", ".join(f"{v} <- {k}" for k, v in self.prog.relocated.items()))
         if self.prog.unrolled:
             self.notes.append("loops over literal tables read as unrolled ladders: " + ", ".join(self.prog.unrolled))
         self.depth = 4 if tier == "quick" else 6
